@@ -7,6 +7,9 @@ package main
 
 import (
 	"fmt"
+	"math"
+
+	"github.com/LindsayBradford/crem/internal/pkg/parameters"
 )
 
 func init() { register("C01", runC01) }
@@ -93,6 +96,16 @@ func runC01(args []string) {
 		emit(J{"kind": "init", "dataset": ds, "obs": c.obs()})
 		for w := 0; w < walks; w++ {
 			c = catchOpen(txPath(ds), nil)
+			if w == walks-1 {
+				// the last walk runs on a model that has a variable limit configured: direct setting, synchronising and
+				// decoding are not subject to it (only proposals are judged), so the observables are those of an unlimited model
+				_, allActive := c03Range(ds, 4)
+				if allActive > 1 {
+					lim := math.Floor(0.4*allActive) + 0.005
+					c = catchOpen(txPath(ds), parameters.Map{catchLimitKeys[4]: lim})
+					stats["walks_under_a_cost_limit"]++
+				}
+			}
 			ops := make([]catchOp, 0, walkLen)
 			obs := make([]J, 0, walkLen)
 			for s := 0; s < walkLen; s++ {
